@@ -162,14 +162,12 @@ theorem C13_total (ts : List Tok) : ∃ out, filter ts = .ok out := by
 open H5.Spec.OptionalTags in
 /-- deviations of the pinned rules from the 2020 syntax that are recorded as findings (each a specific window) -/
 def knownDevEnd (n : Str) (x : Option Tok) : Bool :=
-  (n = [112] && (nextStartIn x [[100, 97, 116, 97, 103, 114, 105, 100], [100, 105, 97, 108, 111, 103], [100, 105, 114]] || (noMoreContent x && !parentAllowsPOmission x))) ||
+  (n = [112] && nextStartIn x [[100, 97, 116, 97, 103, 114, 105, 100], [100, 105, 97, 108, 111, 103], [100, 105, 114]]) ||
   (n = [116, 102, 111, 111, 116] && (match x with | some (.startTag _ m _) => m = [116, 98, 111, 100, 121] | _ => false))
 
-def knownDevStart (n : Str) (x : Option Tok) : Bool :=
-  n = [98, 111, 100, 121] && (match x with
-    | some (.startTag _ m _) => [[109, 101, 116, 97], [108, 105, 110, 107], [116, 101, 109, 112, 108, 97, 116, 101]].elem m
-    | some (.emptyTag _ m _) => [[109, 101, 116, 97], [108, 105, 110, 107], [115, 99, 114, 105, 112, 116], [115, 116, 121, 108, 101], [116, 101, 109, 112, 108, 97, 116, 101]].elem m
-    | _ => false)
+/-- no recorded deviation is left for start tags (the `<body>` before meta/link/template window was repaired in /repo,
+commit 4b13a1b) -/
+def knownDevStart (_n : Str) (_x : Option Tok) : Bool := false
 
 open H5.Spec.OptionalTags in
 /-- **C13 (position, end tags).** whenever the rule function allows an end tag to be omitted, the HTML syntax allows
